@@ -330,6 +330,12 @@ func c16SetEvents(ctx *Ctx, res *Result, w *world.World, report func(int, string
 			nw.ResourceVersion = "6"
 			h.OnUpdate(mk(nil), nw)
 		})
+		// and the change undone (e.g. paused -> un-paused as the only difference)
+		fire("update back: "+n, func(h cache.ResourceEventHandler) {
+			nw := mk(nil)
+			nw.ResourceVersion = "7"
+			h.OnUpdate(mk(changes[n]), nw)
+		})
 	}
 }
 
